@@ -143,10 +143,10 @@ fn c11_snapshot_and_resume() {
 }
 
 // @harness c11_snapshot_binary_packed
-// @props C11,C10
-// @tier quick
-// @timeout 2400
-// @mem 8
+// @props C11
+// @tier thorough
+// @timeout 7200
+// @mem 12
 // @units StaticDatabase::{add, update, select_by_type, write, write_typed_range}, StaticVariation<BinaryInput>::{promote, get_write_info}, RangeWriter (bit packing + fixed), WireFlags for BinaryInput
 // @bounds binary inputs at indices 3 and 4 configured for the packed variation g1v1, values and flags arbitrary; READ of the whole range; BOTH points are updated with arbitrary new values/flags after the selection; one fragment with enough room: the response is byte-for-byte what the values AT SELECTION TIME imply - packed g1v1 only for plainly ONLINE points, g1v2 (flags with the state in bit 7) otherwise, consecutive points of the same variation share a header - and nothing of the later update leaks (neither value, flags nor the choice of variation)
 #[kani::proof]
